@@ -1,4 +1,4 @@
-use std::{cmp, collections::VecDeque, marker::PhantomData};
+use std::{collections::VecDeque, marker::PhantomData};
 
 use daggy::{petgraph::visit::IntoNodeReferences, Dag, Walker};
 
@@ -42,11 +42,16 @@ impl<F> RankCalc<F> {
                 .for_each(|(_edge_id, child_fn_id)| {
                     let child_rank_existing = ranks[child_fn_id.index()];
 
-                    // Update child rank to be the greater of any previously calculated rank, and
-                    // the rank computed from this iteration.
-                    ranks[child_fn_id.index()] = cmp::max(child_rank_existing, child_rank_maybe);
+                    // Only when this path is longer than any seen so far does the child's
+                    // rank change, and only then do its successors need to be revisited.
+                    //
+                    // Re-queuing the child unconditionally walks every path from the roots,
+                    // which is exponential in the number of functions for dense graphs.
+                    if child_rank_maybe > child_rank_existing {
+                        ranks[child_fn_id.index()] = child_rank_maybe;
 
-                    fn_ids.push_back(child_fn_id);
+                        fn_ids.push_back(child_fn_id);
+                    }
                 });
         }
 
